@@ -249,7 +249,12 @@ class Monitor:
                                  f"(disk {None if disk is None else len(disk)} bytes, save would write {len(mem.encode())} bytes)")
         return ns
 
+    session_injected = False
+
     def on_start(self, sess, first):
+        # did this session ever carry an injected stored default (policy sdkconfig)?  A replacing load - also the reload
+        # after a save - forgets injected defaults, so the question is asked before every action, not at the end
+        self.session_injected = bool(ops.injected(sess.state.kconf))
         ns = self.clean_check(sess, "session start")
         if first and self.m.initial_is_tool_same:
             self.ctx.counters["probe:start-on-tool-written-file"] += 1
@@ -274,6 +279,8 @@ class Monitor:
                 [c._user_selection.name if c._user_selection is not None else None for c in k.unique_choices])
 
     def before(self, sess, act):
+        if ops.injected(sess.state.kconf):
+            self.session_injected = True
         if act["key"].startswith("s!"):
             self.pre_fault = self.user_state(sess.state.kconf)
             with simproc.quiet():
@@ -307,7 +314,7 @@ class Monitor:
         if exited is not None and (exited.startswith("Configuration saved") or exited.startswith("No change to configuration")):
             saved = True
             self.saved_before_exit = True
-            self.saved_with_injection = bool(ops.injected(st.kconf))
+            self.saved_with_injection = self.session_injected or bool(ops.injected(st.kconf))
         elif exited is not None:
             self.saved_before_exit = False
         if saved:
@@ -316,7 +323,8 @@ class Monitor:
             self.m.disk_origin = "session-save"
             with simproc.quiet():
                 if st.needs_save():
-                    self.ctx.violate(f"C16/dirty-after-save/{self.dirty_reason(st)}", f"{where}: immediately after a successful save needs_save() is True")
+                    reason = "injected-default-in-saving-session" if self.session_injected else self.dirty_reason(st)
+                    self.ctx.violate(f"C16/dirty-after-save/{reason}", f"{where}: immediately after a successful save needs_save() is True")
         if self.sparse and not saved and exited is None and act["key"] not in ("s", "q", "o") and i % 3:
             ns = None
         else:
